@@ -3,13 +3,18 @@
 package parser
 
 // VerifLex drains the grammar-file lexer and returns the tokens it sent,
-// in order, up to and including EOF or the error token. Compiled only with
+// in order, up to and including EOF or the first error token. Compiled only with
 // `-tags verif`; used by the verification harness in /verif.
 func VerifLex(src string) []Token {
 	l := Lex(src)
 	var res []Token
 	for t := range l.tokens {
 		res = append(res, t)
+		if t.Kind == tokenError {
+			// an unterminated block comment offers error tokens for ever:
+			// stop at the first one (the lexer goroutine stays blocked)
+			break
+		}
 	}
 	return res
 }
